@@ -354,9 +354,8 @@ class SimplePathStrategy(object):
                 ic = ignore_context or (fid > 0)
 
                 # expression can match first node, if first axis is self::,
-                # descendant-or-self:: or if ignore_context is True and
-                # axis is not descendant::
-                if not frags[fid][3] and (not ignore_context or fid > 0):
+                # descendant-or-self:: or if ignore_context is True
+                if not frags[fid][3] and not ignore_context:
                     # axis is not self-beggining, we have to skip this node
                     stack_push((fid, p, ic))
                     return None
